@@ -200,6 +200,7 @@ Definition tok_burn_core (W : world) (ms : list meta) (acc mint auth : key) (amt
   _ <- require (is_signer ms auth) EMissingRequiredSignature ;;
   if amt =? 0 then Ok W else
   _ <- require (is_writable ms acc && is_writable ms mint) (ERuntime 4) ;;
+  _ <- require (amt <=? m_supply m) (ECustom 14) ;;                    (* mint.supply.checked_sub(amount): TokenError::Overflow *)
   let W := put_token W acc (s <| t_amount := t_amount s - amt |>) in
   let a := get W mint in
   Ok (put W mint (a <| data := DMint (m <| m_supply := m_supply m - amt |>) |>)).
